@@ -50,6 +50,7 @@ def dispatch (op : String) (args impl : List String) : Verdict :=
   | "lerp_row" => opLerpRow args impl
   | "rgbw" => opRgbw args impl
   | "rgbw_row" => opRgbwRow args impl
+  | "rgbwseq" => opRgbwSeq args impl
   | "bufops" => opBufops args impl
   | "rthconv" => opRthConv args impl
   | "alloc" => opAlloc args impl
